@@ -107,7 +107,20 @@ func (ex *Exec) fresh(label string, w int) *Term {
 		}
 		return ex.tf.Const(w, v)
 	}
-	return ex.tf.Var(name, w)
+	v := ex.tf.Var(name, w)
+	if pv, ok := ex.pins[name]; ok {
+		// replay inside the engine: the counterexample's value is imposed
+		if w == 0 {
+			if pv != 0 {
+				ex.addPC(v)
+			} else {
+				ex.addPC(ex.tf.BNot(v))
+			}
+		} else {
+			ex.addPC(ex.tf.Eq(v, ex.tf.Const(w, pv)))
+		}
+	}
+	return v
 }
 
 func (ex *Exec) argStr(v Value, what string) string {
@@ -133,6 +146,7 @@ func init() {
 			return BoolV{ex.fresh(ex.argStr(args[0], "label"), 0)}
 		},
 		"Symbolic": func(ex *Exec, fn *ssa.Function, args []Value) Value { return BoolV{ex.tf.True} },
+		"NativeUnsupported": func(ex *Exec, fn *ssa.Function, args []Value) Value { return nil },
 		"Bytes": func(ex *Exec, fn *ssa.Function, args []Value) Value {
 			label := ex.argStr(args[0], "label")
 			n := args[1].(IntV).T
@@ -246,6 +260,9 @@ func init() {
 			}
 			seq := ex.labelSeq[label]
 			ex.labelSeq[label] = seq + 1
+			if pv, ok := ex.pins[fmt.Sprintf("%s#%d", label, seq)]; ok {
+				return IntV{ex.tf.Const(64, pv%n.val)}
+			}
 			c := ex.choice(int(n.val))
 			ex.eng.noteChoice(fmt.Sprintf("%s#%d", label, seq), c, ex)
 			return IntV{ex.tf.Const(64, uint64(c))}
@@ -668,7 +685,7 @@ func intrTimeNow(ex *Exec, fn *ssa.Function, args []Value) Value {
 	tf := ex.tf
 	t := ex.fresh("time.Now", 64)
 	if !ex.concMode {
-		lo := tf.Const(64, 0)
+		lo := tf.Const(64, 1) // the zero instant is reserved for time.Time{}
 		if ex.lastNow != nil {
 			lo = ex.lastNow
 		}
